@@ -272,13 +272,16 @@ def run_procs_case(spec: dict[str, Any]) -> dict[str, Any]:
 
 
 def run_thread_script(spec: dict[str, Any]) -> dict[str, Any]:
-    from ..c20_threads import script_reader_passes_queued_reader
-    viol, aborted, checked = script_reader_passes_queued_reader()
+    from .. import c20_threads as T
+    if spec['script'] == 'threads-writer-joins-passing-reader':
+        viol, aborted, checked = T.script_writer_joins_passing_reader()
+    else:
+        viol, aborted, checked = T.script_reader_passes_queued_reader()
     viols = []
     if viol:
         viols.append({'mech': viol['mech'], 'detail': viol['detail'],
                       'witness': {'impl': 'threading',
-                                  'tasks': [['W1'], ['R1'], ['R1']],
+                                  'script': spec['script'],
                                   'events': viol['recent_events']}})
     return {'violations': viols,
             'counters': {'thread_enter_events_checked': checked},
@@ -377,13 +380,13 @@ class C20(Check):
         # 6. FileLock inside one loop (virtual-time retries)
         fsmall = [t for t in small if len(t) == 2 or
                   all(len(x) == 1 for x in t)]
-        for t in (fsmall if quick else small):
+        for t in small:
             add(mode='sweep', impl='file', tasks=t, gaps=GAPS_Q, cancel=None,
-                bound=2000 if quick else bound, nrand=200)
+                bound=1500 if quick else bound, nrand=200)
             add(mode='sweep', impl='file', tasks=decorate(rng, t),
                 gaps=GAPS_Q, cancel=None, bound=1000 if quick else bound,
                 nrand=200)
-        for t in (rng.sample(fsmall, 8) if quick else fsmall):
+        for t in (rng.sample(fsmall, 12) if quick else fsmall):
             for cp in cancel_points(t):
                 add(mode='sweep', impl='file', tasks=t, gaps=GAPS_Q,
                     cancel=cp, bound=1000 if quick else bound, nrand=100)
@@ -412,7 +415,7 @@ class C20(Check):
     def run_case(self, spec: dict[str, Any]) -> dict[str, Any]:
         if 'script' in spec:
             name = spec['script']
-            if name == 'threads-reader-passes-queued-reader':
+            if name.startswith('threads-'):
                 return run_thread_script(spec)
             return explore(REPLAYS[name])
         mode = spec['mode']
